@@ -117,12 +117,15 @@ Definition iot (r : nat) (p : ipc) (i : nat) : option ipc :=
   if (i =? r) && negb (post_fin p) then Some p else None.
 Definition loads_done (V : nat) (p : ipc) : nat :=
   match p with I_SetReady _ | I_Turn | I_Join _ | I_Done => Nat.min (V + 1) m | _ => Nat.min V m end.
+(* load_buffer calls made so far, counting the NODATA ones (not clipped at m) *)
+Definition attempts (V : nat) (p : ipc) : nat :=
+  match p with I_SetReady _ | I_Turn | I_Join _ | I_Done => V + 1 | _ => V end.
 Definition exports_done (V : nat) (p : ipc) : nat :=
   match p with I_WaitUpdate | I_Asleep | I_Awake | I_Cmp | I_Export => V - T | _ => V + 1 - T end.
 Definition visits_done (V : nat) (p : ipc) : nat := if post_fin p then V + 1 else V.
 Definition io_extra (V : nat) (p : ipc) : Prop :=
   match p with
-  | I_SetReady x => x = (if m <=? V then 2 else if V + 1 =? m then 1 else 0)
+  | I_SetReady x => x = (if m <=? V then 2 else if ld_final (chunk V) then 1 else 0)
   | I_Join k => k < T /\ V + 1 = m + T
   | I_Done => V + 1 = m + T
   | _ => True
@@ -130,7 +133,7 @@ Definition io_extra (V : nat) (p : ipc) : Prop :=
 Definition IoInvC (V : nat) (p : ipc) (inp : list load) (ov : bool) (lv : nat) (out : list (list N)) (cr : option nat) : Prop :=
   V < m + T /\
   inp = skipn (loads_done V p) ls /\
-  ov = (m <=? loads_done V p) /\
+((ov = true -> m <= loads_done V p) /\ (m < attempts V p -> ov = true)) /\
   lv = T - (visits_done V p - m) /\
   io_extra V p /\
   (all_ok (outs m) -> out = ok_bytes (outs (exports_done V p)) /\ cr = None).
@@ -150,17 +153,14 @@ Hypothesis HT : 1 <= T.
 Hypothesis Hsig : length sigma0 = T.
 Hypothesis Hwf : wf_loads ls.
 
-Lemma m_pos : 1 <= m.
-Proof. destruct Hwf as [Hne _]. unfold m. destruct ls; [congruence|cbn [length]; lia]. Qed.
-
 Lemma wf_chunk j : j < m -> 1 <= ld_total (chunk j) /\ length (blk j) = ld_total (chunk j).
 Proof.
-  intros Hj. destruct Hwf as (_ & Hall & _). rewrite Forall_forall in Hall.
+  intros Hj. destruct Hwf as (Hall & _). rewrite Forall_forall in Hall.
   apply (Hall (chunk j)). unfold chunk. apply nth_In. exact Hj.
 Qed.
 
-Lemma final_chunk j : j < m -> ld_final (chunk j) = (Datatypes.S j =? m).
-Proof. intros Hj. destruct Hwf as (_ & _ & Hf). apply (Hf j Hj). Qed.
+Lemma final_chunk j : j < m -> ld_final (chunk j) = true -> Datatypes.S j = m.
+Proof. intros Hj. destruct Hwf as (_ & Hf). apply (Hf j Hj). Qed.
 
 Lemma mod_nTi n i : i < T -> (n * T + i) mod T = i.
 Proof. intros Hi. rewrite Nat.add_comm, Nat.mod_add by lia. apply Nat.mod_small. exact Hi. Qed.
@@ -555,7 +555,8 @@ Proof.
       unfold OwnInv, own_ctl, own_old. rewrite G_round by exact Hi.
       rewrite (G_S_same (n' * T + i) i E Hi (mod_nTi n' i Hi)).
       repeat split; try assumption.
-      intros Hlt. rewrite Hf, final_chunk by exact E. apply Nat.eqb_neq. lia.
+      intros Hlt. rewrite Hf. destruct (ld_final (chunk (n' * T + i))) eqn:Efin; [|reflexivity].
+      apply (final_chunk _ E) in Efin. lia.
     + destruct Hb as (Hs & _). rewrite Hs in Hu. discriminate.
 Qed.
 
@@ -697,7 +698,9 @@ Proof.
       by (unfold visits_done; rewrite Hp, Hp'; reflexivity).
     assert (E3 : exports_done (q * T + r) p' = exports_done (q * T + r) (io S s))
       by (destruct p'; try discriminate; destruct (io S s); try discriminate; reflexivity).
-    rewrite E1, E2, E3. repeat (split; [assumption|]). exact Hout.
+    assert (E4 : attempts (q * T + r) p' = attempts (q * T + r) (io S s))
+      by (destruct p'; try discriminate; destruct (io S s); try discriminate; reflexivity).
+    rewrite E1, E2, E3, E4. repeat (split; [assumption|]). exact Hout.
   - intros k Hk. specialize (Hbuf k Hk). unfold nvis, iot in *. rewrite Hp in Hbuf. rewrite Hp'.
     cbn [negb] in *. rewrite Bool.andb_false_r in *. exact Hbuf.
 Qed.
@@ -709,7 +712,6 @@ Proof.
   intros (Lb & Lw & Lx & Hr & Ht & Hio & Hbuf) Hp HV Hk. specialize (Hbuf k Hk).
   assert (Eo : iot r (io S s) k = None) by (unfold iot; rewrite Hp, Bool.andb_false_r; reflexivity).
   rewrite Eo in Hbuf. destruct Hbuf as [Hb _]. unfold nvis in Hb. rewrite Hp, Bool.andb_true_r in Hb.
-  pose proof m_pos as Hm.
   destruct ((k <? r) || (k =? r)) eqn:E.
   - unfold IdleInv in Hb. destruct (q * T + k <? m) eqn:E'; [|exact Hb].
     apply Nat.ltb_lt in E'. apply Bool.orb_true_iff in E. rewrite Nat.ltb_lt, Nat.eqb_eq in E. lia.
@@ -735,13 +737,13 @@ Proof.
   - intros k Hk. apply getw_set_wpc_neq. congruence.
 Qed.
 
-Lemma setready_code V x : x = (if m <=? V then 2 else if V + 1 =? m then 1 else 0) ->
+Lemma setready_code V x : x = (if m <=? V then 2 else if ld_final (chunk V) then 1 else 0) ->
   (x =? 2) = (m <=? V) /\ (if x =? 2 then INV else READY) = (if V <? m then READY else INV).
 Proof.
   intros ->. destruct (m <=? V) eqn:E1.
   - apply Nat.leb_le in E1. assert (E2 : (V <? m) = false) by (apply Nat.ltb_ge; lia). rewrite E2. split; reflexivity.
   - apply Nat.leb_gt in E1. assert (E2 : (V <? m) = true) by (apply Nat.ltb_lt; lia). rewrite E2.
-    destruct (V + 1 =? m); split; reflexivity.
+    destruct (ld_final (chunk V)); split; reflexivity.
 Qed.
 
 Lemma not_dead_not_inv n i b w x : IdleInv n i b w x -> n * T + i < m + T -> b_st b <> INV.
@@ -832,17 +834,27 @@ Proof.
   - (* I_Load *)
     unfold BufInv in Hbr. exists q, r.
     destruct Hio as (HV & Hin & Hov & Hlv & Hex & Hout). unfold loads_done in Hin, Hov.
-    destruct (over S s) eqn:Eov.
-    + symmetry in Hov. apply Nat.leb_le in Hov. assert (HmV : m <= q * T + r) by lia.
-      injection H as <- _.
-      apply (inv_io_glue q r s); [exact Hinv|exact Lb|exact Lw|reflexivity|exact Ht|intros; split; reflexivity| |].
-      * unfold IoInv, IoInvC. cbn [set_io io input over live output crashed loads_done visits_done post_fin exports_done io_extra].
-        rewrite Eov, Hin. rewrite !Nat.min_r by lia. split; [exact HV|]. split; [reflexivity|].
-        split; [symmetry; apply Nat.leb_le; lia|]. split; [exact Hlv|]. split; [|exact Hout].
+    destruct (Nat.lt_ge_cases (q * T + r) m) as [HVm|HmV].
+    2:{ (* nothing left to load: over already set, or the NODATA load sets it now *)
+      assert (Hinp : input S s = []).
+      { rewrite Hin, Nat.min_r by lia. apply skipn_all2. fold m. lia. }
+      assert (Es' : s' = {| bufs := bufs S s; wpcs := wpcs S s; wsts := wsts S s; io := I_SetReady 2; turn := r;
+                            over := true; live := live S s; input := []; output := output S s; crashed := crashed S s |}).
+      { destruct (over S s) eqn:Eov.
+        - injection H as <- _. unfold set_io. rewrite Eov, Hinp, Ht. reflexivity.
+        - rewrite Hinp in H. injection H as <- _. reflexivity. }
+      subst s'.
+      apply (inv_io_glue q r s); [exact Hinv|exact Lb|exact Lw|reflexivity|reflexivity|intros; split; reflexivity| |].
+      * unfold IoInv, IoInvC. cbn [io input over live output crashed loads_done visits_done post_fin exports_done io_extra].
+        rewrite !Nat.min_r by lia. split; [exact HV|]. split; [symmetry; apply skipn_all2; fold m; lia|].
+        split; [split; [intros _; lia|intros _; reflexivity]|]. split; [exact Hlv|]. split; [|exact Hout].
         assert (E : (m <=? q * T + r) = true) by (apply Nat.leb_le; lia). rewrite E. reflexivity.
-      * cbn [set_io io]. rewrite nvis_self, iot_self. cbn [post_fin]. rewrite getb_set_io, getw_set_io.
-        unfold BufInv. apply Own_load_nodata; assumption.
-    + symmetry in Hov. apply Nat.leb_gt in Hov. assert (HVm : q * T + r < m) by lia.
+      * cbn [io]. rewrite nvis_self, iot_self. cbn [post_fin].
+        change (BufInv q (Some (I_SetReady 2)) r (getb s r) (getw s r) (nth r (wsts S s) dS)).
+        unfold BufInv. apply Own_load_nodata; assumption. }
+    + assert (Eov : over S s = false).
+      { destruct (over S s); [|reflexivity]. destruct Hov as [Hov _]. specialize (Hov eq_refl). lia. }
+      rewrite Eov in H.
       rewrite Nat.min_l in Hin by lia. rewrite (skipn_nth_cons dl) in Hin by (fold m; lia).
       fold (chunk (q * T + r)) in Hin. rewrite Hin in H. injection H as <- _.
       apply (inv_io_glue q r s); [exact Hinv| | exact Lw|reflexivity|reflexivity| | |].
@@ -850,10 +862,10 @@ Proof.
       * intros k Hk. split; [|reflexivity]. unfold PipeConc.getb. cbn [bufs]. apply nth_set_nth_neq. congruence.
       * unfold IoInv, IoInvC. cbn [io input over live output crashed loads_done visits_done post_fin exports_done io_extra].
         rewrite Nat.min_l by lia.
-        split; [exact HV|]. split; [replace (q * T + r + 1) with (Datatypes.S (q * T + r)) by lia; reflexivity|]. rewrite (final_chunk _ HVm).
-        split; [destruct (Nat.eqb_spec (Datatypes.S (q * T + r)) m); symmetry; [apply Nat.leb_le|apply Nat.leb_gt]; lia|].
+        split; [exact HV|]. split; [replace (q * T + r + 1) with (Datatypes.S (q * T + r)) by lia; reflexivity|].
+        split; [split; [intro Efin; apply (final_chunk _ HVm) in Efin; lia|cbn [attempts]; intro Hlt; lia]|].
         split; [exact Hlv|]. split; [|exact Hout].
-        assert (E : (m <=? q * T + r) = false) by (apply Nat.leb_gt; lia). rewrite E, Nat.add_1_r. reflexivity.
+        assert (E : (m <=? q * T + r) = false) by (apply Nat.leb_gt; lia). rewrite E. reflexivity.
       * cbn [io]. rewrite nvis_self, iot_self. cbn [post_fin].
         match goal with |- BufInv _ _ _ (PipeConc.getb S ?st r) _ _ =>
           replace (PipeConc.getb S st r) with (load_b (getb s r) (chunk (q * T + r)))
@@ -957,12 +969,11 @@ Qed.
 
 Lemma inv_init : InvQR 0 0 (init S T sigma0 ls).
 Proof.
-  pose proof m_pos as Hm.
   unfold InvQR, init. cbn [bufs wpcs wsts turn io]. rewrite !repeat_length.
   repeat (split; [reflexivity || assumption || lia|]). split.
   - unfold IoInv, IoInvC. cbn [io input over live output crashed loads_done visits_done exports_done post_fin io_extra].
     cbn [Nat.mul Nat.add Nat.sub Nat.min skipn]. split; [lia|]. split; [reflexivity|].
-    split; [symmetry; apply Nat.leb_gt; lia|]. split; [lia|]. split; [exact I|]. intros _. split; reflexivity.
+    split; [split; [discriminate|cbn [attempts]; lia]|]. split; [lia|]. split; [exact I|]. intros _. split; reflexivity.
   - intros i Hi. unfold PipeConc.getb, PipeConc.getw. cbn [bufs wpcs].
     rewrite !nth_repeat_lt by exact Hi.
     assert (E : nvis 0 0 I_WaitUpdate i = 0) by (unfold nvis; cbn [post_fin]; rewrite Bool.andb_false_r; reflexivity).
